@@ -280,7 +280,8 @@ func TestScoutBorderlineExchangeInitIgnoresMaxResponseBytes(t *testing.T) {
 	}
 }
 
-// TestVerifReplay: the reproducer of the repaired defect (a void unary response obeys the wire cap); the other TestScout* functions reproduce findings that are not repaired and are not run
+// TestVerifReplay: the reproducers of the repaired defects (a void unary response obeys the wire cap; a nested column counts toward the external cap); TestScoutBorderlineExchangeInitIgnoresMaxResponseBytes reproduces a finding that is not repaired and is not run
 func TestVerifReplay(t *testing.T) {
 	t.Run("TestScoutVoidUnaryIgnoresMaxResponseBytes", TestScoutVoidUnaryIgnoresMaxResponseBytes)
+	t.Run("TestScoutProducerExternalCapBypassedByNestedColumn", TestScoutProducerExternalCapBypassedByNestedColumn)
 }
